@@ -1037,7 +1037,7 @@ func runUnpackStream(o *Opts) {
 	sink := NewSink(o.Out, "unpack", "Corr.RunUnpack",
 		"cases: (initial tree of the whole chroot incl. a sibling dst-evil, a victim file and pre-existing content/links in dst) x entry sequences: hostile stream (names/targets over {a,b,l,..,.,'',sibling, absolute, doubled-slash spellings}, links before and after the entries that traverse them, 1-4 entries) and well-formed stream (1-7 entries over 15 names incl. long/PAX, non-ASCII, leading ./ and /, repeats, children before parents, global/extended PAX headers, unsupported types) x tar format x {root, uid 65534} x reader faults at sampled offsets; each run in a chrooted child whose / is the case root; non-trivial = at least two entries or a link; distinct by hash of the case",
 		80)
-	n := 600 * o.Scale
+	n := 1000 * o.Scale
 	if o.Tier == "thorough" {
 		n = 20000 * o.Scale
 	}
